@@ -81,8 +81,10 @@ P["C14"] = dict(cat="proof",
 P["C17"] = dict(cat="proof",
     text="Coq: balanced_bf equals the definition over arbitrary duplicate-free index lists (incl. permutation invariance), violator check "
          "sound, judge soundness (verdict written on every successful return; non-ternary => not balanced). Tie: all small ternary "
-         "matrices x algorithm x seriesParallel x violator requested, random/structured multi-block matrices.",
-    note=NOTE_COMMON, tech="Coq proof (oracle = definition) + extracted judge run against CMRbalancedTest", ref="DESIGN.md C17")
+         "matrices x algorithm x seriesParallel x violator requested, random/structured multi-block matrices. Totally unimodular => "
+         "balanced is proved (TuBalanced.v), so matrices certified TU (network by digraph, series-parallel by the reduction model) of "
+         "every size must be reported balanced without violator (judge_balanced_cert, proved sound).",
+    note=NOTE_COMMON, tech="Coq proof (oracle = definition, TU => balanced) + extracted judges run against CMRbalancedTest", ref="DESIGN.md C17")
 
 P["C09"] = dict(cat="proof",
     text="Coq: judge soundness: acceptance means support/shape kept, test = 'signing changes nothing' (fixpoint), output passes the test, "
@@ -137,9 +139,11 @@ P["C16"] = dict(cat="proof",
          "respect to the Prop-level definition for all shapes; judge soundness (verdict, requested k honoured, reported k, strong = "
          "also the transpose, unimodular = k 1, CMR_ERROR_OVERFLOW only accepted for entries >= 1000). Tie: CMRequimodularTest / "
          "TestStrong / CMRunimodularTest / TestStrong on all integer matrices with entries in {-2..2} up to m*n <= 4/6, all 2x2 over "
-         "{-3..3}, random, rank-deficient, B*X-constructed and nonsingular matrices, and matrices with entries near 2^31.",
-    note=NOTE_COMMON + "that the verdict does not depend on the chosen basis is not proved (the oracle quantifies over all bases, as the "
-         "definition does); the oracle is exponential and used up to about 4x5.",
+         "{-3..3}, random, rank-deficient, B*X-constructed and nonsingular matrices, and matrices with entries near 2^31. The determinant "
+         "gcd is proved independent of the basis (EquiUnique.v); certified products L*X of every size (row operations on a diagonal "
+         "matrix, network matrix with identity columns) are judged without the oracle (judge_equi_cert, proved sound).",
+    note=NOTE_COMMON + "the definition-level oracle is exponential and used up to about 4x5; beyond that only certified full-row-rank "
+         "products are decided (CMR_ERROR_OVERFLOW accepted there).",
     tech="Coq proof (oracle <-> definition, judge soundness) + extracted judge run against the four entry points", ref="DESIGN.md C16")
 P["C18"] = dict(cat="proof",
     text="Coq: the injected clock schedule (read r returns r ticks, +2000 s from read k on) makes a check at read c of a function entered "
